@@ -7,5 +7,5 @@ Require Import ExtrOcamlBasic.
 From Kiki Require Import Base.Ord Base.Chars Data Oset.Model Pipeline Canon.
 Extraction Language OCaml.
 Extraction "../_build/ocaml/model.ml"
-  entry_gen entry_tok entry_hash entry_mt entry_run
+  entry_gen entry_tok entry_hash entry_mt entry_fm entry_run
   N_cmp pcmp lcmp str_cmp apply_op onew ocontains oeq ocmp dec_N hex_str.
